@@ -299,13 +299,14 @@ fn run_cycles(sc: &Value) {
     let flav = ["raw", "rawfn", "closure", "fake", "unchecked"];
     for c in 0..cycles {
         interpose::QUIET_ALL.store(c >= full, SeqCst);
-        let k = (rnd() % 5) as usize;
+        // 0-4 installations per lifetime as a rule; every 997th lifetime holds many at once (dozens to a few hundred)
+        let k = if c % 997 == 996 { [33usize, 64, 65, 100, 129, 257, 300][(rnd() % 7) as usize] } else { (rnd() % 5) as usize };
         let mut steps = Vec::new();
         for _ in 0..k {
             let f = 1 + rnd() % nf as u64;
             let r = rnd() % 10;
             let (kind, fake, flavour, gate) = if r < 2 { ("bool", if rnd() % 2 == 0 { "true" } else { "false" }, "bool", "ok") }
-                else if r == 2 { ("jump", "k1", "raw", "sig") }
+                else if r == 2 && k < 10 { ("jump", "k1", "raw", "sig") }
                 else { ("jump", ["k1", "k2", "k3"][(rnd() % 3) as usize], flav[(rnd() % 5) as usize], "ok") };
             steps.push(json!({"op":"install","f":f,"kind":kind,"fake":fake,"flavour":flavour,"site":0,"n":-1,"gate":gate,"fault":"none"}));
             if gate != "ok" {
